@@ -68,9 +68,11 @@ package types
 //@   assigns nothing
 
 //@@ the invalid value of a base type as an interface value (table goinvalid; its entries are what C15 compares
-//@@ the constructors with): assumed total, never nil
+//@@ the constructors with): assumed total, never nil, and as wide as the base type (the table entries' types are
+//@@ compared with the size table by the closed obligations invalid-table.size.<i>)
 //@ func (t Base) Invalid() (r interface{})
 //@   props C05 C06
 //@   trusted
 //@   ensures r != nil
+//@   ensures [size] KnownIdx(t) && t != BaseString ==> binsize(r) == SizeSpec(byte(t)&0x1F)
 //@   assigns nothing
